@@ -185,7 +185,11 @@ func (e *env) judge(c *vh.Ctx, cs cfgSpec, lk leafKind, o obs) {
 	scen := fmt.Sprintf("%s/inv=%s/skiptime=%v/skipverify=%v", cs.ech, cs.inv, cs.skipTime, cs.skipVerify)
 	switch {
 	case passed && v.mustFail:
-		c.Fail("accepts-bad-certificate/"+scen+"/leaf="+lk.String(), "the handshake got past certificate verification although Go's x509 verifier, called with the options the property demands (RootCAs, configured time, expected name "+fmt.Sprintf("%q", expectedName(cs, rejected))+"), rejects the chain", in, o.class, v.class)
+		wantClass := v.class
+		if wantClass == "" {
+			wantClass = "refused with a CertificateVerificationError"
+		}
+		c.Fail("accepts-bad-certificate/"+scen+"/leaf="+lk.String(), "the handshake got past certificate verification although Go's x509 verifier, called with the options the property demands (RootCAs, configured time, expected name "+fmt.Sprintf("%q", expectedName(cs, rejected))+"), rejects the chain", in, o.class, wantClass)
 	case !passed && v.mustPass:
 		what := "the certificate verifies for the expected name " + fmt.Sprintf("%q", expectedName(cs, rejected)) + " at the expected time, but the client refused it"
 		key := "refuses-good-certificate/" + scen + "/leaf=" + lk.String()
@@ -318,11 +322,11 @@ func runC14(c *vh.Ctx) {
 			}
 		}
 	} else {
-		// quick: every ECH configuration (accepted and rejected) that verifies, for every ECH-capable entry point
+		// quick: every ECH-rejected configuration for every ECH-capable entry point
 		// (tls.Client, UClient(HelloGolang), parrots), plus a seeded sample of the remaining matrix up to -n configurations
 		var keep, rest []cfgSpec
 		for _, cs := range cfgs {
-			if cs.ech == echReject || (cs.ech == echAccept && !cs.skipVerify) {
+			if cs.ech == echReject {
 				keep = append(keep, cs)
 			} else {
 				rest = append(rest, cs)
@@ -338,18 +342,27 @@ func runC14(c *vh.Ctx) {
 		cfgs = append(keep, rest...)
 	}
 	jobs = jobs[:0]
+	// the 9 single-certificate variants for every configuration; the 4 chains with an intermediate only where a
+	// verification takes place (with InsecureSkipVerify and no rejection every chain passes trivially)
+	var starts []int
 	for _, cs := range cfgs {
+		starts = append(starts, len(jobs))
 		for lk := leafKind(0); lk < nLeaf; lk++ {
+			if lk >= lIntT && cs.skipVerify && cs.ech != echReject {
+				continue
+			}
 			jobs = append(jobs, &hsJob{cs: cs, lk: lk})
 		}
 	}
+	starts = append(starts, len(jobs))
 	e.runJobs(jobs)
-	for i := 0; i < len(jobs); i += int(nLeaf) {
+	for si := 0; si+1 < len(starts); si++ {
+		i := starts[si]
 		cs := jobs[i].cs
 		pass := map[leafKind]bool{}
 		usable := true
 		accepted := false
-		for _, j := range jobs[i : i+int(nLeaf)] {
+		for _, j := range jobs[i:starts[si+1]] {
 			e.judge(c, j.cs, j.lk, j.o)
 			pass[j.lk] = j.o.class == "ok" || j.o.class == "ech-rejected"
 			if outcomeCode(j.o.class) == 2 {
@@ -428,7 +441,7 @@ func (e *env) x509Cases(c *vh.Ctx) {
 	for lk := leafKind(0); lk < nLeaf; lk++ {
 		l := e.p.leaves[lk]
 		ts := append([]time.Time{l.cert.NotAfter, l.cert.NotBefore}, times...)
-		for _, n := range []string{"", nameS, nameO, nameP} {
+		for _, n := range []string{"", nameS, nameP} {
 			for _, t := range ts {
 				ok := e.p.x509Verify(l, n, t) == nil
 				coq := fmt.Sprintf("(CX509 %s %s %s %s %s)", e.coqRoots(), coqChain(l), vh.Str(n), vh.Z(t.Unix()), vh.Bool(ok))
